@@ -4,7 +4,6 @@ use aranya_policy_vm::Machine;
 use vcommon::{CaseInfo, CheckResult, Ctx, Report, ensure, fail};
 
 use crate::{
-    ast::print_prog,
     c22::{Case, strategy},
     exec::exec_all,
     pgen::Cfg,
@@ -37,7 +36,7 @@ fn via_postcard(m: &Module) -> Result<Module, String> {
 }
 
 fn check(c: &Case, info: &mut CaseInfo) -> CheckResult {
-    let text = print_prog(&c.prog);
+    let text = crate::c22::text_of(c);
     let m1 = match compile_module(&text) {
         Ok(m) => m,
         Err(CompileOutcome::Panicked(m)) => fail!("front end panicked", "{m}\n{text}"),
@@ -108,7 +107,7 @@ pub fn run(ctx: &Ctx) -> ! {
     let mut rep = Report::new(ctx, "exploration");
     rep.assume("serialized forms of a Module in the code base: ciborium (policy-compiler CLI, VM test) and the rkyv derives; serde_json and postcard are also tried and only counted when they cannot encode a Module at all");
     rep.assume("'same results' = exit reason or machine error, final data stack, foreign-call trace, fact/effect I/O events and final fact store of every function, command policy and action run");
-    let n = ctx.pick(2_500, 60_000);
+    let n = ctx.pick(6_000, 120_000);
     rep.explore(
         "modules",
         "generated policies (types, globals, 1-3 functions, facts, effects, finish functions, 1-2 commands with recall blocks, one action): compile twice => equal Module; cbor / rkyv (json, postcard when representable) round-trip => equal Module, equal Machine, identical execution of every entry point; non-trivial = program with >=1 command run, >=1 action run and >20 instructions",
